@@ -245,6 +245,10 @@ def run_econ(unit):
         flags = {f: True for f in c03.ALL_FLAGS}
         flags['totalcapcost.Valid'] = flags['oamtotalfixed.Valid'] = False
         flags['RITC.Provided'] = False
+    if route == 'capex-total-fixed':       # the user states the total capital cost only: components and every O&M item come from the correlations
+        flags = {f: False for f in c03.ALL_FLAGS}
+        flags['totalcapcost.Valid'] = True
+        flags['RITC.Provided'] = False
     if route == 'correlations-itc':        # as 'correlations', with an investment tax credit rate supplied
         flags = {f: False for f in c03.ALL_FLAGS}
         flags['RITC.Provided'] = True
@@ -341,6 +345,8 @@ def units(tier, seed):
     for kind, em, route in ([('cogen-parallel', 2, 'correlations'), ('cogen-topping', 3, 'correlations-itc')] if tier == 'quick' else
                             [(k, em, 'correlations-itc') for k in ('cogen-topping', 'cogen-bottoming', 'cogen-parallel', 'electricity', 'direct-use') for em in (1, 2, 3)]):
         us.append({'harness': 'econ', 'kind': kind, 'em': em, 'route': route})
+    for kind, em in ([('electricity', 2), ('direct-use', 3)] if tier == 'quick' else [(k, em) for k in KINDS[tier] for em in (1, 2, 3)]):
+        us.append({'harness': 'econ', 'kind': kind, 'em': em, 'route': 'capex-total-fixed'})
     us.append({'harness': 'factor-sync'})       # which adjustment factor scales the injection wells' correlation cost
     return us
 
